@@ -190,8 +190,9 @@ Definition check_so (c : so_case) : list string :=
      | Some a, Some r =>
          if fits_int64 a && fits_int64 r then
            tag_if (negb (so_obs c =? (if spec_sat (vop_of_string (so_op c)) a r then 1 else 0)))
-             (* finding C03-F2: the rescaling looks for the first "=" (strings.Cut), so a constraint with > < or ~ keeps its
-                scale while the provide it is compared with is moved to 0.V *)
+             (* fixed defect C03-F2 (commit 0f275a6; the tag stays armed and is not listed): the rescaling looked for the first
+                "=" (strings.Cut), so a constraint with > < or ~ kept its scale while the provide it is compared with was
+                moved to 0.V *)
              (if negb (existsb (fun ch => (ch =? 61)%N) (bytes_of_string (so_op c))) && negb (ends_with_release (so_cver c))
               then "viol:soname-rescaling-skips-operator-without-equals"
               else "viol:soname-constraint-disagrees-with-apk-order")
